@@ -243,7 +243,11 @@ def half_life(run, F):
             key = '%s in %s' % (st['key'], f.name if f.kind != 'Closure' else q.split('::')[-2] + '::{closure}')
             if f is not fn:
                 # callee sites: vshift / vcorr_pearson are covered by C09 / C11 obligations
-                if f.name in ('vshift', 'vcorr_pearson') or 'vshift' in q or 'vcorr_pearson' in q:
+                if f.name == 'titer' and f.file.endswith('backends_impl/polars.rs') and 'Datetime' in (f.impl_self or ''):
+                    reason = ('TIter for a polars datetime column yields DateTime items; half_life requires '
+                              'T::Inner: Number, so this impl is not an instantiation reachable from it '
+                              '(class-hierarchy over-approximation of the call graph)')
+                elif f.name in ('vshift', 'vcorr_pearson') or 'vshift' in q or 'vcorr_pearson' in q:
                     reason = 'inside %s: covered by that function\'s own obligations (SEQ.underflow / AGG.sub)' % f.name
             run.ob('PANIC.entry', fn, key + ' @' + st['where'].split(':')[-1], reason is not None,
                    st['where'], ('discharged: ' + reason) if reason else
